@@ -250,6 +250,7 @@ var specSig = []string{"run(arg0)", "const:253", "B(len(MSG.Payload),0)", "V(rec
 
 func runC06(c *Ctx) {
 	r := c.R
+	defer borrowRules(c, "C01", runC01inner, map[string]string{"R1.6": "R6.6"}, "a signed v2 frame with a 255-byte payload is 280 bytes long: a shorter emit buffer cuts the signature")
 	defer func() {
 		r.Rule("R6.5", "what is signed is what is written (= R8.1): frame.Writer.Write, which the signing originators hand their finished frame to, modifies or re-encodes a frame only when its message is not yet raw; "+
 			"a frame that already carries its encoded payload, checksum and signature is marshalled as it is", 1)
@@ -437,6 +438,42 @@ func runC06(c *Ctx) {
 		}
 		if !guarded {
 			probs = append(probs, "signing is not under `"+o.key+" != nil`")
+		}
+		// nothing but the key, the frame version and earlier failures decides whether the frame is signed: every
+		// branch that can bypass the signing on the way to a successful return tests one of those
+		for _, iff := range ifsIn(fn) {
+			sb := iff.Block().Succs
+			r0 := sb[0] == S.Block() || reachFrom(sb[0], nil, nil)[S.Block()]
+			r1 := sb[1] == S.Block() || reachFrom(sb[1], nil, nil)[S.Block()]
+			if r0 == r1 || iff.Block() == S.Block() {
+				continue
+			}
+			other := sb[0]
+			if r0 {
+				other = sb[1]
+			}
+			// the bypassing side: does it reach a successful return?
+			succeeds := false
+			for b := range reachFrom(other, nil, map[*ssa.BasicBlock]bool{S.Block(): true}) {
+				if ret, isRet := b.Instrs[len(b.Instrs)-1].(*ssa.Return); isRet && (len(ret.Results) == 0 || isNilConst(ret.Results[len(ret.Results)-1])) {
+					succeeds = true
+				}
+			}
+			if !succeeds {
+				continue
+			}
+			cs := ex(iff.Cond)
+			if cs == "("+o.key+" != nil)" || cs == "("+o.key+" == nil)" {
+				continue
+			}
+			if inner, _ := stripNot(iff.Cond); inner != nil {
+				if e, isE := inner.(*ssa.Extract); isE && e.Index == 1 {
+					if ta, isTA := e.Tuple.(*ssa.TypeAssert); isTA && strings.Contains(typeStr(ta.AssertedType), "frame.V") {
+						continue // the frame version
+					}
+				}
+			}
+			probs = append(probs, "whether the frame is signed also depends on `"+cs+"` ("+c.Pos(iff.Pos())+"): with an outgoing key configured a v2 frame can leave with a signature that was not computed for its present content and key")
 		}
 		stored := false
 		fs := frameStoresIn(fn)
@@ -917,6 +954,8 @@ func windowShape(b *ssa.BinOp) (ts, cur string, K int64, strict bool) {
 
 func runC09(c *Ctx) {
 	r := c.R
+	defer borrowRules(c, "C01", runC01inner, map[string]string{"R1.6": "R9.6"}, "the checksum stamped by the originator is correct only for the payload that is then marshalled unchanged and whole")
+	defer ruleKeyPlumbing(c, "R9.7")
 	r.NotDecided = append(r.NotDecided,
 		"the emitted sequence over long histories as an observation (the modulo-256 wrap is the uint8 type's)",
 		"frame.Writer.WriteMessage's deprecated path has no initialisation-time validation; the statement's refusal clause is anchored at streamwriter.Writer / Node")
@@ -1140,7 +1179,7 @@ func runC09(c *Ctx) {
 					okEdge := false
 					for _, iff := range ifsIn(fn) {
 						b, isB := iff.Cond.(*ssa.BinOp)
-						if !isB || herr == nil || b.X != herr || !isNilConst(b.Y) {
+						if !isB || herr == nil || !nilOnlyVia(b.X, herr) || !isNilConst(b.Y) {
 							continue
 						}
 						if b.Op == token.NEQ && edgeMustPass(fn, edge{iff.Block(), iff.Block().Succs[1]}, st.Block()) {
